@@ -62,6 +62,15 @@ def evaluate(cfg):
         As3 = overlap_integral_asymmetric([g[1]], [g[0], g[1]])
         o.call()
         o.cmp("asymmetric [b],[a,b]", As3, ref[na:, :], TOL)
+        if cfg.get("alias"):
+            # the same shell OBJECT listed twice (a legal, linearly dependent basis): blocks are addressed by position
+            idx = list(range(len(ref))) + list(range(na))
+            S3 = overlap_integral([g[0], g[1], g[0]])
+            o.call()
+            o.cmp("overlap_integral([a, b, a]) with a the same object", S3, ref[np.ix_(idx, idx)], TOL, key="repeated-shell-object")
+            As4 = overlap_integral_asymmetric([g[0], g[1]], [g[0]])
+            o.call()
+            o.cmp("asymmetric [a,b],[a] with a the same object", As4, ref[:, :na], TOL, key="repeated-shell-object")
         blk = Overlap.construct_array_contraction(g[0], g[1])
         o.call()
         blk = blk * g[0].norm_cont[:, :, None, None] * g[1].norm_cont[None, None, :, :]
